@@ -193,7 +193,11 @@ func (t *throttler) Call() {
 			t.cond.Broadcast()
 		} else if t.trailing {
 			t.waiting = true
-			time.AfterFunc(t.duration-delta, t.cond.Broadcast)
+			time.AfterFunc(t.duration-delta, func() {
+				t.cond.L.Lock()
+				t.cond.Broadcast()
+				t.cond.L.Unlock()
+			})
 		}
 	}
 }
@@ -203,7 +207,9 @@ func (t *throttler) Next() bool {
 	t.cond.L.Lock()
 	defer t.cond.L.Unlock()
 
-	for !t.waiting && !t.stop {
+	// A trailing trigger is stored right away, but it may only be
+	// handed out once the current period is over.
+	for !t.stop && (!t.waiting || time.Since(t.last) < t.duration) {
 		t.cond.Wait()
 	}
 
